@@ -1064,7 +1064,7 @@ func runC19(c *Ctx) {
 	}
 	nGen := 120
 	if c.Thorough {
-		nGen = 1600
+		nGen = 1000
 	}
 	if os.Getenv("C19_ONLY_CORPUS") != "" {
 		nGen = 0
